@@ -215,9 +215,11 @@ let run clause_prefix path =
          | None -> ());
         (match C.delivered_twice s with
          | Some id ->
-           let why = if s.C.g.C.g_compfail then "callback_twice_after_failed_pubcomp"
-             else if s.C.g.C.g_delfail then "callback_twice_after_failed_delete" else "callback_twice" in
-           report "exactly_once" seq (why ^ " id=" ^ string_of_n id)
+           (* a failing DeletePacket(Incoming) is outside C10's quantifier (the session store is assumed
+              to work; it is injected for conformance only): the message cannot but stay stored *)
+           if s.C.g.C.g_compfail then report "exactly_once" seq ("callback_twice_after_failed_pubcomp id=" ^ string_of_n id)
+           else if s.C.g.C.g_delfail then ()
+           else report "exactly_once" seq ("callback_twice id=" ^ string_of_n id)
          | None -> ());
         (match eo with
          | None ->
